@@ -225,9 +225,14 @@ def one_history(ctx, cid, rng):
                         raised = type(e).__name__
                     if op == "cp_occupied":
                         c.feature("op:cp-onto-occupied")
-                        c.check(raised is not None, "cp-onto-occupied-path-did-not-raise",
-                                f"cp {rel(su)} -> occupied {rel(du)} did not raise")
                         rec["raised"] = raised
+                        if raised is None:
+                            # an implementation may also replace the destination: then it must read as the source
+                            # (the property leaves the choice open; what it forbids is any OTHER change)
+                            M.names[df_][dp] = ("obj", M.new_obj(M.content[M.resolve(sf, sp)]))
+                            c.feature("op:cp-onto-occupied:replaced")
+                        else:
+                            c.feature("op:cp-onto-occupied:refused")
                     else:
                         if raised:
                             c.fail(f"cp-failed:{op}:{raised}", f"cp {rel(su)} -> {rel(du)} raised {raised}", {"history": hist})
@@ -268,8 +273,15 @@ def one_history(ctx, cid, rng):
                     except Exception as e:  # noqa
                         raised = type(e).__name__
                     c.feature(f"op:{op.replace('_', '-onto-')}")
-                    c.check(raised is not None, f"{op}-did-not-raise", f"{op[:2]} {rel(su)} -> occupied {rel(du)} did not raise")
                     rec.update(src=rel(su), dst=rel(du), raised=raised)
+                    if raised is None and dp != "/foreign":
+                        # not refused: then it must behave like the operation onto a free path (see cp above)
+                        if op == "mv_occupied":
+                            M.names[sf][dp] = M.names[sf].pop(sp)
+                        else:
+                            M.names[sf][dp] = ("obj", M.resolve(sf, sp))
+                    elif raised is None:
+                        c.fail(f"{op}-replaced-foreign-group", f"{op[:2]} {rel(su)} onto the unrelated group /foreign did not raise")
                 elif op == "mv":
                     cands = [(ff, p) for ff, p in srcs if (ff, p) not in M.link_targets()]
                     if not cands:
